@@ -77,6 +77,8 @@ Zeller(y, m, d) == LET mm == IF m < 3 THEN m + 12 ELSE m
                        k == yy % 100  j == yy \div 100
                        h == (d + (13 * (mm + 1)) \div 5 + k + k \div 4 + j \div 4 + 5 * j) % 7     \* 0 = Saturday
                    IN (h + 6) % 7
+Leap(y) == (y % 4 = 0 /\ y % 100 # 0) \/ y % 400 = 0
+DaysIn(y, m) == IF m = 2 THEN (IF Leap(y) THEN 29 ELSE 28) ELSE IF m \in {4, 6, 9, 11} THEN 30 ELSE 31
 AllInt(args) == \A i \in 1 .. Len(args) : args[i].k = "int" /\ args[i].t \in Integral
 Pad(s, n, d) == [i \in 1 .. n |-> IF i <= Len(s) THEN s[i].n ELSE d[i]]
 
@@ -113,7 +115,7 @@ ValueFails(e) ==    \* the call returned a value: is it what the name denotes?
                                    ms == IF n = 1 THEN a[1].n ELSE (((p[1] * 24 + p[2]) * 60 + p[3]) * 60 + p[4]) * 1000 + p[5]
                                IN F(r.t = "TimeSpan" /\ e.rms = ms, "TimeSpan construction gives the wrong duration") ELSE F(r.t = "TimeSpan", "TimeSpan does not return a time span"))
     [] f = "date" -> (IF AllInt(a) /\ n = 1 THEN F(r.t = "DateTime" /\ r.k = "int" /\ r.n = a[1].n, "Date(seconds) is not that Unix time")
-                      ELSE IF AllInt(a) /\ n <= 6 /\ a[1].n >= 1971 /\ a[1].n <= 2100 /\ (n < 2 \/ (a[2].n >= 1 /\ a[2].n <= 12)) /\ (n < 3 \/ (a[3].n >= 1 /\ a[3].n <= 28))
+                      ELSE IF AllInt(a) /\ n <= 6 /\ a[1].n >= 1971 /\ a[1].n <= 2100 /\ (n < 2 \/ (a[2].n >= 1 /\ a[2].n <= 12)) /\ (n < 3 \/ (a[3].n >= 1 /\ a[3].n <= DaysIn(a[1].n, a[2].n)))
                               /\ (n < 4 \/ (a[4].n >= 0 /\ a[4].n <= 23)) /\ (n < 5 \/ (a[5].n >= 0 /\ a[5].n <= 59)) /\ (n < 6 \/ (a[6].n >= 0 /\ a[6].n <= 59))
                       THEN F(r.t = "DateTime" /\ e.parts = Pad(a, 6, <<0, 1, 1, 0, 0, 0>>), "Date construction gives the wrong calendar components") ELSE F(r.t = "DateTime", "Date does not return a date-time"))
     [] f = "dayofweek" -> (IF a[1].t = "DateTime" /\ Len(e.aparts) = 3 /\ e.aparts[1] >= 1900 /\ e.aparts[1] <= 2200
